@@ -252,7 +252,8 @@ func derivesFrom(v ssa.Value, pred func(ssa.Value) bool) bool {
 							return true
 						}
 					}
-					return false
+					// a composite literal built in place: field / element stores of the local
+					return walk(al, d+1)
 				}
 			}
 			return walk(x.X, d+1)
